@@ -1068,6 +1068,32 @@ fn fixed_bases() -> Vec<Base> {
     ]
 }
 
+
+/// Bases with every variable-length field longer than 64 KiB, so that a damaged length field is
+/// followed by more data than any first read chunk: readers that start trusting the claimed length
+/// after "enough" real data has arrived are only reachable with such files.
+fn big_bases() -> Vec<Base> {
+    let big = |seed: u8| MBytes { len: 70_000, seed, head: Hex(vec![]) };
+    let h = MHeader { uri: "rsync://example.com/test/test.mft".into(), notify: Some("https://example.com/notification.xml".into()), success: true, secs: 1_700_000_000 };
+    let m = MManifest {
+        not_after: MTime { secs: 1_759_335_022, nanos: 0 },
+        number: Hex({
+            let mut a = vec![0u8; 20];
+            a[19] = 9;
+            a
+        }),
+        this_update: MTime { secs: 1_275_552_660, nanos: 0 },
+        ca_repository: "rsync://example.com/test/".into(),
+        manifest: big(1),
+        crl_uri: "rsync://example.com/test/test.crl".into(),
+        crl: big(2),
+    };
+    let o1 = MObject { uri: "rsync://example.com/test/obj1.bin".into(), hash: Some(Hex(vec![7; 32])), content: big(3) };
+    let o2 = MObject { uri: "rsync://example.com/test/obj2.bin".into(), hash: None, content: big(4) };
+    let s = MState { notify: "https://foo.bar/baz".into(), session: Hex(vec![0xa1; 16]), serial: 0x1234, updated: 1_700_000_000, best_before: 1_700_003_600, last_modified: Some(1_699_999_000), etag: Some(big(5)), deltas: vec![(18, 3), (19, 4)] };
+    vec![Base::Point(h, m, vec![o1, o2]), Base::State(s)]
+}
+
 fn fixed_recipe() -> ArchRecipe {
     let state = MState { notify: "https://foo.bar/baz".into(), session: Hex(vec![0xa1; 16]), serial: 7, updated: 1_700_000_000, best_before: 1_700_003_600, last_modified: Some(1_699_999_000), etag: Some(MBytes::of(b"\"abc\"")), deltas: vec![(6, 1), (7, 2)] };
     ArchRecipe { key: 11, buckets: 2, state: Some(state), objects: vec![(0, MBytes::of(b"object zero")), (1, MBytes { len: 300, seed: 5, head: Hex(vec![]) }), (2, MBytes::of(b"two")), (3, MBytes::of(b"three"))], deletes: vec![1] }
@@ -1261,7 +1287,7 @@ pub trait SerDebug: Serialize + std::fmt::Debug {}
 impl<T: Serialize + std::fmt::Debug> SerDebug for T {}
 
 pub fn run(ctx: &Ctx, rep: &mut Report, replay: Option<&serde_json::Value>) {
-    rep.rule("(a) valid encodings of generated records (point header, manifest, object sequences, whole stored-point files, status, RRDP state) and RRDP archive files built with the real writer (1/2/4/1024 buckets, state + up to 6 objects, deletions leaving free blocks) under one mutation each: truncation, bit flip in a structural field or anywhere, length/count fields set to {0,1,len-1,len+1,rest+1,64Ki,limit,limit+1,2^31,2^32-1,2^32,2^40,2^62,2^63,2^64-2,2^64-1}, archive pointer/size/flag fields set to {0,1,2,self,other block,first block,inside index,EOF-1,EOF,EOF+1,2^31,2^63,2^64-1}, splices; (b) exhaustive sweeps over fixed bases: every truncation, every bit of every structural field, every length value for every length field; (c) arbitrary byte strings per decoder; (d) the seed corpus of the fuzz targets; archive cases get a second pass in which the collector's update operations (update/delete of present objects, 16 publishes of 1 byte..12 pages, state rewrite, verify) run on the damaged file; each case runs in a worker process with panics caught, a cap on single allocations of max(16 MiB, 64 x input) and a CPU budget; non-trivial = the decoder got past at least one field (archives: past the magic) and then reported an error, or decoded a mutated input; distinct by serialised case");
+    rep.rule("(a) valid encodings of generated records (point header, manifest, object sequences, whole stored-point files, status, RRDP state) and RRDP archive files built with the real writer (1/2/4/1024 buckets, state + up to 6 objects, deletions leaving free blocks) under one mutation each: truncation, bit flip in a structural field or anywhere, length/count fields set to {0,1,len-1,len+1,rest+1,64Ki,limit,limit+1,2^31,2^32-1,2^32,2^40,2^62,2^63,2^64-2,2^64-1}, archive pointer/size/flag fields set to {0,1,2,self,other block,first block,inside index,EOF-1,EOF,EOF+1,2^31,2^63,2^64-1}, splices; (b) exhaustive sweeps over fixed bases: every truncation, every bit of every structural field, every length value for every length field; the bit and length sweeps also over a stored point and an RRDP state whose variable-length fields each hold 70 000 bytes (more data than any first read chunk follows a damaged length); (c) arbitrary byte strings per decoder; (d) the seed corpus of the fuzz targets; archive cases get a second pass in which the collector's update operations (update/delete of present objects, 16 publishes of 1 byte..12 pages, state rewrite, verify) run on the damaged file; each case runs in a worker process with panics caught, a cap on single allocations of max(16 MiB, 64 x input) and a CPU budget; non-trivial = the decoder got past at least one field (archives: past the magic) and then reported an error, or decoded a mutated input; distinct by serialised case");
     rep.assume("a single allocation request above max(16 MiB, 64 x input length) counts as 'far beyond the file's size' (DESIGN §1 C27); constant-size allocations below that (the decoder's 65536-entry map pre-allocation, about 5.4 MB) are reported in largest_single_allocation_seen_per_decoder but not judged");
     rep.assume("more than 2 s of CPU time on an input of a few KiB counts as not terminating; a wall-clock timeout alone is dropped as inconclusive");
     rep.assume("the whole-engine leg (module c27e) covers caches written through the rsync transport (stored points, status file, trust anchors); RRDP archives are covered at the RrdpArchive level only");
@@ -1352,6 +1378,32 @@ pub fn run(ctx: &Ctx, rep: &mut Report, replay: Option<&serde_json::Value>) {
         let len = e.data.len();
         for n in 0..len {
             muts.push(Mutation::Truncate(Index(n as u64)));
+        }
+        let sf = struct_fields(&e);
+        for (fi, f) in sf.iter().enumerate() {
+            for bit in 0..(f.len * 8) {
+                muts.push(Mutation::FlipStruct { field: Index(fi as u64), bit: bit as u8 });
+            }
+        }
+        let lf = len_fields(&e);
+        for fi in 0..lf.len() {
+            for v in LenVal::ALL {
+                muts.push(Mutation::SetLen { field: Index(fi as u64), value: v });
+            }
+        }
+        for m in muts {
+            let c = RecCase { base: base.clone(), mutation: m };
+            record_case(ctx, rep, "sweep-records", &c, |i| rec_case(&c, i));
+        }
+    }
+    // the same for bases whose variable-length fields exceed 64 KiB: every length value and every bit
+    // of every structural field, a few truncations (not all: the files have ~280 000 bytes)
+    for base in big_bases() {
+        let e = base.encode();
+        let mut muts: Vec<Mutation> = vec![Mutation::None];
+        let len = e.data.len();
+        for k in 1..16u64 {
+            muts.push(Mutation::Truncate(Index(len as u64 * k / 16)));
         }
         let sf = struct_fields(&e);
         for (fi, f) in sf.iter().enumerate() {
